@@ -14,6 +14,34 @@ def main():
         req = json.loads(line)
         inputs_list = [{n: ({tuple(c): v for c, v in cv}, tuple(dims)) for n, (cv, dims) in ins.items()} for ins in req["inputs_list"]]
         cap = req.get("capacity")
+        stack = req.get("stack")
+        if stack:
+            # run the kernels in a thread with a small stack: a kernel whose stack use grows with the number of loop
+            # iterations (an alloca that is not in the entry block) overflows it on moderately large inputs
+            import threading
+
+            box = {}
+
+            def work():
+                try:
+                    box["res"] = ("ok", kernels.run_real(req["text"], req["fs"], inputs_list, req["backend"], feedback=False))
+                except BaseException as e:  # noqa: BLE001
+                    box["res"] = ("exc", type(e).__name__, str(e)[:500])
+
+            # compile first on the main thread (the compiler itself needs an ordinary stack)
+            try:
+                kernels.run_real(req["text"], req["fs"], [], req["backend"])
+                threading.stack_size(int(stack))
+                t = threading.Thread(target=work)
+                t.start()
+                t.join()
+                threading.stack_size(0)
+                res = box.get("res", ("exc", "NoResult", ""))
+            except BaseException as e:  # noqa: BLE001
+                res = ("exc", type(e).__name__, str(e)[:500])
+            out.write(json.dumps(res) + "\n")
+            out.flush()
+            continue
         try:
             if cap is not None or req.get("clear"):
                 from harness import kruns
